@@ -293,10 +293,29 @@ func runC13(r *Run) {
 						continue
 					}
 					lookupKey = k.Key(lk)
-					cis := ifsOn(fn, func(v ssa.Value) bool {
-						e, isE := v.(*ssa.Extract)
-						return isE && e.Tuple == ssa.Value(lk) && e.Index == 1
-					})
+					var isExists func(v ssa.Value, depth int) bool
+					isExists = func(v ssa.Value, depth int) bool {
+						if e, isE := v.(*ssa.Extract); isE {
+							return e.Tuple == ssa.Value(lk) && e.Index == 1
+						}
+						// exists declared first and assigned under a condition: false unless looked up
+						ph, isPhi := v.(*ssa.Phi)
+						if !isPhi || depth > 3 {
+							return false
+						}
+						n := 0
+						for _, e := range ph.Edges {
+							if c, isC := e.(*ssa.Const); isC && c.Value != nil && c.Value.String() == "false" {
+								continue
+							}
+							if !isExists(e, depth+1) {
+								return false
+							}
+							n++
+						}
+						return n > 0
+					}
+					cis := ifsOn(fn, func(v ssa.Value) bool { return isExists(v, 0) })
 					if len(cis) > 0 {
 						existsIf = &cis[0]
 					}
@@ -320,6 +339,36 @@ func runC13(r *Run) {
 					accept := map[string]bool{kk: true}
 					if lookupKey != "" {
 						accept[lookupKey+"#0.id"] = true
+						// the looked-up entry kept in a local declared beforehand (var t T; t, ok = table[id]):
+						// the local has that single store and it is passed on every path to the call
+						for _, l := range accs {
+							lk, isL := l.In.(*ssa.Lookup)
+							if !isL || k.Key(lk) != lookupKey {
+								continue
+							}
+							for _, u := range *lk.Referrers() {
+								e, isE := u.(*ssa.Extract)
+								if !isE || e.Index != 0 {
+									continue
+								}
+								for _, u2 := range *e.Referrers() {
+									st, isS := u2.(*ssa.Store)
+									al, isA := st2alloc(st, isS)
+									if !isA {
+										continue
+									}
+									nStores := 0
+									for _, u3 := range *al.Referrers() {
+										if s3, ok := u3.(*ssa.Store); ok && s3.Addr == ssa.Value(al) {
+											nStores++
+										}
+									}
+									if nStores == 1 && passesOnEveryPath(p, fn, k, st, hc) {
+										accept["*&"+k.Key(al)+".id"] = true
+									}
+								}
+							}
+						}
 					}
 					if !ok || !accept[id] {
 						terminal.Violation(fn, instrPos(hc), "event ID", fmt.Sprintf("the emitted event carries TransactionID %q, not the removed ID %q", id, kk))
@@ -387,7 +436,26 @@ func runC13(r *Run) {
 				for _, hc := range hcalls {
 					order.Instance(fnName(fn)+"|order", true, map[string]string{"fn": fnName(fn), "lockset_at_handler_call": heldString(li.Held(hc))})
 					if !instrDominates(dc, hc) {
-						order.Violation(fn, instrPos(hc), "handler before removal", "the handler runs before the transaction is unregistered: a re-entrant or concurrent call still sees it (second terminal event)")
+						// path form: no feasible path reaches the handler call without passing the removal
+						hc := hc
+						badPath := ""
+						oq := &PathQuery{P: p, Fn: fn, K: k}
+						oq.Step = func(in ssa.Instruction, deferred bool, st uint64, c *PathCtx) (uint64, bool) {
+							if in == ssa.Instruction(dc) {
+								return st | 1, false
+							}
+							if in == ssa.Instruction(hc) && st&1 == 0 {
+								if badPath == "" {
+									badPath = c.Witness(fn, hc)
+								}
+								return st, true
+							}
+							return st, false
+						}
+						oq.Run()
+						if badPath != "" {
+							order.ViolationPath(fn, instrPos(hc), "handler before removal", "the handler runs before the transaction is unregistered: a re-entrant or concurrent call still sees it (second terminal event)", badPath)
+						}
 					}
 				}
 				continue
@@ -506,19 +574,36 @@ func runC13(r *Run) {
 			if !okDrain {
 				closeR.Violation(fn, instrPos(dt), "table dropped without events", "Close drops the table without emitting one closed event per remaining transaction")
 			}
-			// closed = true on the success path
+			// closed = true on every success path
 			setClosed := false
-			for _, a := range sharedAccesses(fn, map[*types.Var]bool{m.Closed: true}) {
-				if st, ok := a.In.(*ssa.Store); ok && a.Kind == "store" {
-					if c, ok := st.Val.(*ssa.Const); ok && c.Value != nil && c.Value.String() == "true" {
-						for _, ret := range returnsOf(fn) {
-							idx := errorResultIndex(fn)
-							if idx >= 0 && isNilConst(deref(ret.Results[idx])) && instrDominates(st, ret) {
-								setClosed = true
-							}
+			if idx := errorResultIndex(fn); idx >= 0 {
+				closedStores := map[ssa.Instruction]bool{}
+				for _, a := range sharedAccesses(fn, map[*types.Var]bool{m.Closed: true}) {
+					if st, ok := a.In.(*ssa.Store); ok && a.Kind == "store" {
+						if c, ok := st.Val.(*ssa.Const); ok && c.Value != nil && c.Value.String() == "true" {
+							closedStores[st] = true
 						}
 					}
 				}
+				nSucc, nBad := 0, 0
+				q := &PathQuery{P: p, Fn: fn}
+				q.Step = func(in ssa.Instruction, _ bool, st uint64, c *PathCtx) (uint64, bool) {
+					if closedStores[in] {
+						return st | 1, false
+					}
+					return st, false
+				}
+				q.AtReturn = func(ret *ssa.Return, st uint64, c *PathCtx) {
+					if c.NilState(ret.Results[idx]) == -1 {
+						return
+					}
+					nSucc++
+					if st&1 == 0 {
+						nBad++
+					}
+				}
+				q.Run()
+				setClosed = nSucc > 0 && nBad == 0
 			}
 			if !setClosed {
 				closeR.Violation(fn, instrPos(dt), "closed flag not set", "Close returns success without marking the agent closed: later calls are accepted and emit events")
@@ -815,4 +900,33 @@ func strictBeforePredicate(cond ssa.Value, pol bool, next *ssa.Next, fn *ssa.Fun
 		}
 	}
 	return false, "unrecognised predicate " + exprDepth(cond, 0)
+}
+
+func st2alloc(st *ssa.Store, ok bool) (*ssa.Alloc, bool) {
+	if !ok || st == nil {
+		return nil, false
+	}
+	al, isA := st.Addr.(*ssa.Alloc)
+	return al, isA
+}
+
+// passesOnEveryPath: every feasible path from the entry that reaches instruction at has executed must.
+func passesOnEveryPath(p *Prog, fn *ssa.Function, k *keyer, must, at ssa.Instruction) bool {
+	if instrDominates(must, at) {
+		return true
+	}
+	ok := true
+	q := &PathQuery{P: p, Fn: fn, K: k}
+	q.Step = func(in ssa.Instruction, deferred bool, st uint64, c *PathCtx) (uint64, bool) {
+		if in == must {
+			return st | 1, false
+		}
+		if in == at && st&1 == 0 {
+			ok = false
+			return st, true
+		}
+		return st, false
+	}
+	q.Run()
+	return ok
 }
